@@ -7,7 +7,7 @@ A_RNG = "A-RNG: rand::thread_rng().gen_range(lo..hi) returns some value in lo..h
 A_ORD = "A-ORD: the element type's Ord/PartialOrd is a lawful total order and Clone returns an equal value (lawful_ord / lawful_clone are preconditions; proved non-vacuous for u64, i64, usize)"
 A_STD = "A-STD: contracts of std functions used by the bodies (binary_search, sort_unstable, dedup, split_at_mut, Option/Vec basics) as stated in shim/"
 A_VERUS = "Verus 0.2026.09.13 + Z3 are sound; arithmetic overflow is checked by Verus on the executable text"
-A_EXTRACT = "the extractor copies bodies byte-for-byte apart from the rewrites R1-R21 (incl. R19c, R19d) listed in DESIGN.md 8a; the generated text is re-derived from /repo on every run"
+A_EXTRACT = "the extractor copies bodies byte-for-byte apart from the rewrites R1-R22 (incl. R19c, R19d) listed in DESIGN.md 8a; the generated text is re-derived from /repo on every run"
 A_ENUM = "bounded enumerations run the real crate (cfg hook on) and are complete only up to the stated bound"
 
 # witness search used when a Verus obligation of that function fails (replay enumeration name)
@@ -25,7 +25,7 @@ WITNESS = {
     "EquiSpaced::new": "strategies",
     "_get_many_from_sorted_mut_unchecked": "select_many",
     "quantiles_axis_mut_inner": "quantiles", "ArrL::quantiles_axis_mut": "quantiles", "ArrL::quantile_axis_mut": "quantiles", "ArrL::quantile_mut": "quantiles", "ArrL::quantiles_mut": "quantiles", "ArrL::quantile_axis_skipnan_mut": "skipnan",
-    "fold_skipnan": "skipnan", "indexed_fold_skipnan": "skipnan", "visit_skipnan": "skipnan", "min_skipnan": "skipnan", "max_skipnan": "skipnan", "fold_axis_skipnan": "skipnan", "ArrL::map_axis_skipnan_mut": "skipnan",
+    "fold_skipnan": "skipnan", "indexed_fold_skipnan": "skipnan", "visit_skipnan": "skipnan", "min_skipnan": "skipnan", "max_skipnan": "skipnan", "fold_axis_skipnan": "skipnan", "ArrL::map_axis_skipnan_mut": "skipnan", "argmin_skipnan": "skipnan", "argmax_skipnan": "skipnan",
     "inner_weighted_var": "moments", "weighted_var": "moments", "weighted_std": "moments", "horner_method": "moments", "moments": "moments",
     "entropy": "entropy", "kl_divergence": "entropy", "cross_entropy": "entropy",
     "cov": "cov", "pearson_correlation": "cov",
@@ -199,15 +199,15 @@ PROPS.update({
         "not_decided": [],
     },
     "C14": {
-        "level": "exploration",
-        "level_text": "proved core: Verus shows remove_nan_mut hands over exactly the non-missing elements of a lane (C04 clauses tagged C14), which is what quantile_axis_skipnan_mut / map_axis_skipnan_mut apply the plain operation to. fold_skipnan, indexed_fold_skipnan and visit_skipnan are verified from their extracted bodies (unit skipnan: the closure handed to ndarray's fold / for_each captures the user's FnMut, which Verus rejects, so the call is lowered mechanically to a loop over the visited items, R19): every element is visited exactly once, a missing one leaves the accumulator unchanged and every other one is handed to f with its not-NaN value (and, for the indexed form, its own index pattern, in logical order). fold_axis_skipnan is verified the same way (R19d lowers ndarray's fold_axis to one accumulator per lane, started from init and threaded through the lane in axis order): one result per lane, the accumulator cloned over a missing element and handed to fold with the not-NaN value otherwise. min_skipnan and max_skipnan are verified as callers of fold_skipnan (the missing value when nothing is left, otherwise a not-missing element that bounds every not-missing element; induction over the fold trace; the inline closure and the intermediate result are named by the in-place rewrite R21). quantile_axis_skipnan_mut is verified in unit qglue (InvalidQuantile before EmptyInput; one value per lane: the missing value when the lane has no not-missing element, otherwise the plain quantile of its not-missing elements - the map_axis_mut closure is annotated with exactly that contract and checked against its body, which calls the verified quantile_axis_mut on the compacted lane; remove_nan_mut enters with the contract proved in unit nan). map_axis_skipnan_mut is verified in unit qglue (R19c lowers ndarray's map_axis_mut to a loop over the lanes, each exactly once): result j is the user's mapping applied to a 1-D view of exactly the not-missing elements of lane j. NOT under contract: argmin_skipnan / argmax_skipnan (closures mutating a captured variable, which Verus rejects); they, like everything above, are compared on the real crate with filter-then-plain computed independently",
-        "level_note": "bounded: f64 and Option<i32> over 4-letter alphabets, every content for <= 4 elements, shapes 1-D..3-D incl. empty, every axis, 3 layouts; quantiles for q in {0,.3,.5,1} x {Lower,Higher,Nearest}",
-        "technique": "Verus contracts on the extracted bodies of remove_nan_mut, the skip-NaN folds / visit / per-axis fold / per-lane map, min/max_skipnan and quantile_axis_skipnan_mut + bounded enumeration of the whole skip-NaN API (incl. argmin/argmax_skipnan) against filter-then-plain",
-        "design_ref": "DESIGN.md 4 (C14)",
+        "level": "proof",
+        "level_text": "Verus discharges a contract for every routine the property names, each on the body extracted from /repo, for arrays of every dimensionality, shape and layout (logical interface A-ND) and every MaybeNan element type. remove_nan_mut hands over exactly the non-missing elements of a lane (C04 clauses tagged C14), which is what quantile_axis_skipnan_mut / map_axis_skipnan_mut apply the plain operation to. fold_skipnan, indexed_fold_skipnan and visit_skipnan are verified from their extracted bodies (unit skipnan: the closure handed to ndarray's fold / for_each captures the user's FnMut, which Verus rejects, so the call is lowered mechanically to a loop over the visited items, R19): every element is visited exactly once, a missing one leaves the accumulator unchanged and every other one is handed to f with its not-NaN value (and, for the indexed form, its own index pattern, in logical order). fold_axis_skipnan is verified the same way (R19d lowers ndarray's fold_axis to one accumulator per lane, started from init and threaded through the lane in axis order): one result per lane, the accumulator cloned over a missing element and handed to fold with the not-NaN value otherwise. min_skipnan and max_skipnan are verified as callers of fold_skipnan (the missing value when nothing is left, otherwise a not-missing element that bounds every not-missing element; induction over the fold trace; the inline closure and the intermediate result are named by the in-place rewrite R21). quantile_axis_skipnan_mut is verified in unit qglue (InvalidQuantile before EmptyInput; one value per lane: the missing value when the lane has no not-missing element, otherwise the plain quantile of its not-missing elements - the map_axis_mut closure is annotated with exactly that contract and checked against its body, which calls the verified quantile_axis_mut on the compacted lane; remove_nan_mut enters with the contract proved in unit nan). map_axis_skipnan_mut is verified in unit qglue (R19c lowers ndarray's map_axis_mut to a loop over the lanes, each exactly once): result j is the user's mapping applied to a 1-D view of exactly the not-missing elements of lane j. argmin_skipnan and argmax_skipnan hand indexed_fold_skipnan a closure that assigns to a captured local, which Verus rejects in any form; there the body of indexed_fold_skipnan is inlined from /repo at the call (R22: the closure's body replaces the calls of the closure parameter, with a capture check), its fold is lowered by R19 and the comparison `m <= elem` on references is spelled as a shim function by R16; proved: EmptyInput exactly when nothing is left, otherwise the index pattern of a not-missing element that bounds every not-missing element (for a lawful order). Everything above is also compared on the real crate with filter-then-plain computed independently (witness search and the layouts / element types the shim abstracts)",
+        "level_note": "trusted: A-ND n-D (fold / for_each visit every element exactly once in an unspecified order; indexed_iter yields (index, element) in logical order; map_axis_mut hands every lane along the axis to the closure exactly once and puts result j at the logical position of lane j; fold_axis starts every lane from a copy of init and goes along the axis in order), the MaybeNan impls of f32/f64/Option<T> satisfy the trait contract of shim/skipnan.rs (try_as_not_nan is None exactly for a missing value; checked over the full domain for f32/f64 by the Kani harnesses of C04), the order on A::NotNan is lawful (A-ORD), comparison operators on references agree with cmp, the lowerings R19/R19c/R19d and the inlining R22 preserve meaning (DESIGN.md 8a/8e), EmptyInput is modelled as the MinMaxError constant. bounded (witness search and a cross-check of those assumptions on the real crate, not counted as proof): f64 and Option<i32> over 4-letter alphabets, every content for <= 4 elements, shapes 1-D..3-D incl. empty, every axis, 3 layouts; quantiles for q in {0,.3,.5,1} x {Lower,Higher,Nearest}",
+        "technique": "Verus contracts (loop invariants over mechanically lowered folds, closure contracts, induction over fold traces) on the extracted bodies of remove_nan_mut, every skip-NaN fold / visit / per-axis fold / per-lane map, min/max/argmin/argmax_skipnan and quantile_axis_skipnan_mut; bounded enumeration of the whole skip-NaN API against filter-then-plain as witness search",
+        "design_ref": "DESIGN.md 4 (C14), 8a, 8e",
         "verus": [("nan", "N"), ("skipnan", "N"), ("qglue", "N")],
         "enum": [{"name": "skipnan"}],
-        "assumptions": [A_ND, A_VERUS, A_EXTRACT, A_ENUM, BOUNDED_NOTE],
-        "not_decided": ["f32 element type; arrays with more than 8 elements"],
+        "assumptions": [A_ND, A_ORD, A_VERUS, A_EXTRACT, A_ENUM, BOUNDED_NOTE, "the MaybeNan impls of f32/f64/Option<T> honour the trait contract stated in shim/skipnan.rs and shim/qglue.rs (assumed; f32/f64 is_nan checked over the full domain by Kani under C04)"],
+        "not_decided": ["which of several equal extrema argmin_skipnan / argmax_skipnan designate (the property asks for a position holding the value)", "the order in which map_axis_skipnan_mut presents the remaining elements of a lane to the mapping (unspecified by the crate)"],
         "rule": "one case per (element type, shape, content, layout); non-trivial = at least 2 elements and at least one missing value",
     },
     "C05": {
